@@ -31,6 +31,7 @@ type c08Doc struct {
 	Kind    string  `json:"kind,omitempty"`
 	Name    string  `json:"name,omitempty"`
 	HookAnn *string `json:"hook,omitempty"` // value of the helm.sh/hook annotation when present
+	Policy  *string `json:"policy,omitempty"` // value of the helm.sh/resource-policy annotation when present
 }
 
 type c08File struct {
@@ -104,6 +105,11 @@ type c08Obs struct {
 	Posts    map[string]int `json:"posts,omitempty"`
 	BuiltK   []string       `json:"built_kinds,omitempty"`
 	Returned bool           `json:"returned,omitempty"`
+	// uninstall
+	Stream   []byte     `json:"stream,omitempty"`
+	NStreams int        `json:"nstreams,omitempty"`
+	Deleted  []string   `json:"deleted,omitempty"`
+	DelLog   []c08DelEv `json:"del_log,omitempty"`
 }
 
 func (*c08) ID() string { return "C08" }
@@ -118,9 +124,11 @@ func (*c08) Rule() string {
 		"documents of known/unknown/missing kinds from a per-case palette of 3-5 kinds so that kinds repeat, hook annotations " +
 		"with known, unknown, mixed, empty, upper-case and spaced event lists, weights incl. non-numeric/overflow, delete and " +
 		"log policies, comment-only and blank documents, files with more than ten documents, a malformed-YAML stream), and " +
+		"install-then-uninstall runs (1-3 files, 2-6 kinds from the uninstall table or core kinds, hook and resource-policy annotations; " +
+		"with core kinds the deletion is carried out by the real kube.Client against the delaying API), " +
 		"kind-sorted resource lists of 2-9 resources in 1-4 kind batches for kube.Client.Create with seeded random delays; " +
 		"non-trivial = split: at least 2 documents; sort/render: at least 2 documents placed and (a hook, a dropped document, " +
-		"an unknown kind or a repeated kind); barrier: at least 2 batches; distinct = hash of (case, observation)"
+		"an unknown kind or a repeated kind); uninstall: at least 2 kinds deleted; barrier: at least 2 batches; distinct = hash of (case, observation)"
 }
 
 func (*c08) Decode(raw json.RawMessage) (any, error) {
@@ -169,6 +177,14 @@ func (*c08) NonTrivial(ci, oi any) bool {
 			}
 		}
 		return false
+	case "uninstall":
+		docs, _ := c08StreamDocs(obs.Stream)
+		kinds := map[string]bool{}
+		for _, d := range docs {
+			k, _, _ := c08Inspect(string(d))
+			kinds[k] = true
+		}
+		return len(kinds) >= 2
 	case "barrier":
 		b := 0
 		for i, k := range c.Kinds {
@@ -343,6 +359,8 @@ func (*c08) CoqCase(ci, oi any) string {
 			}
 		}
 		return fmt.Sprintf("CRender %s %s %s", c08CoqFiles(obs.Heads, fs, c08ChartName+"/"), c08CoqHeads(obs.Heads), o)
+	case "uninstall":
+		return c08CoqUninstall(c, obs)
 	case "barrier":
 		evs := make([]string, len(obs.Events))
 		for i, e := range obs.Events {
@@ -412,6 +430,7 @@ func (*c08) Corpus() []any {
 	}
 	out = append(out, c08Case{Kind: "sort", Files: []c08File{c08Join("templates/many.yaml", many, []string{"\n---\n"}, "", "\n")}, Tag: "corpus"})
 	out = append(out, c08Case{Kind: "barrier", Kinds: []string{"ConfigMap", "ConfigMap", "Secret", "Service", "Service"}, DelaySeed: 1, Tag: "corpus"})
+	out = append(out, c08UninstallCorpus()...)
 	return out
 }
 
@@ -444,12 +463,14 @@ func (p *c08) Generate(r *rand.Rand, i int) any {
 	switch k := r.Intn(100); {
 	case k < 28:
 		return c08GenSplit(r)
-	case k < 60:
+	case k < 56:
 		c := c08GenFiles(r, "sort")
 		c.Uninstall = r.Intn(3) == 0
 		return c
-	case k < 90:
+	case k < 82:
 		return c08GenFiles(r, "render")
+	case k < 91:
+		return c08GenUninstall(r)
 	default:
 		return c08GenBarrier(r)
 	}
